@@ -468,6 +468,8 @@ RULES = [
     Rule("C08.G4", rule_G4, floor=3, doc="provenance record schema: writer keys >= reader keys"),
     Rule("C08.G5", rule_G5, floor=9, doc="filter predicates"),
     Rule("C08.G6", rule_G6, floor=4, doc="metadata counts"),
+    Rule("C08.G10", lambda ctx: __import__("sa.rules.c03", fromlist=["x"]).rule_P6(ctx), floor=5,
+         doc="the config-driven entry point applies the recorded filters exactly once: generate hands back the raw dataset built from its results (C03.P6 re-judged)"),
     Rule("C08.G8", lambda ctx: __import__("sa.rules.c18", fromlist=["x"]).rule_H2(ctx), floor=5,
          doc="the recorded filter history survives the copies filters make (deepcopy / load of the configuration): C18.H2 loaders re-judged"),
     Rule("C08.G7", rule_G7, floor=3, doc="filters of a configuration are all applied, in order (re-judged C04.E5)"),
